@@ -276,8 +276,14 @@ def gen_op(rng, s: Shadow, used: set) -> dict | None:
         dim = rng.choice(big)
         n = s.size(dim)
         if rng.random() < 0.5:
-            return {"op": k, "dim": dim, "index": rng.randrange(n)}
-        return {"op": k, "dim": dim, "index": sorted(rng.sample(range(n), rng.randint(2, n)))}
+            i = rng.randrange(n)
+            return {"op": k, "dim": dim, "index": i - n if rng.random() < 0.25 else i}     # positions may be counted from the end
+        idx = rng.sample(range(n), rng.randint(2, n))
+        if rng.random() < 0.7:
+            idx = sorted(idx)
+        if rng.random() < 0.2:
+            idx = [i - n for i in idx]
+        return {"op": k, "dim": dim, "index": idx}
     if k == "sel":
         dim = rng.choice(big)
         vals = s.coords[dim]
